@@ -46,6 +46,21 @@ def make_generator(t, spec, model):
         return t.get_webentity_pages_iter(spec["weid"], spec["prefixes_b"])
     if k == "network":
         return t.get_webentities_links_iter(out=spec["out"], include_auto=spec["auto"])
+    if k == "network_slow":
+        return t.get_webentities_links_slow_iter(out=spec["out"], include_auto=spec["auto"])
+    if k == "we_pagelinks":
+        c = spec["combo"]
+        return t.get_webentity_pagelinks_iter(spec["weid"], spec["prefixes_b"], include_inbound=c[0], include_internal=c[1], include_outbound=c[2])
+    if k == "we_children":
+        return t.get_webentity_child_webentities_iter(spec["weid"], spec["prefixes_b"])
+    if k == "we_crawled_pages":
+        return t.get_webentity_crawled_pages_iter(spec["weid"], spec["prefixes_b"])
+    if k == "we_most_linked":
+        return t.get_webentity_most_linked_pages_iter(spec["weid"], spec["prefixes_b"], pages_count=spec.get("k", 3))
+    if k == "we_outlinks":
+        return t.get_webentity_outlinks_iter(spec["weid"], spec["prefixes_b"])
+    if k == "we_inlinks":
+        return t.get_webentity_inlinks_iter(spec["weid"], spec["prefixes_b"])
     if k == "add_page":
         def one():
             from traph.traph_iterator_state import TraphIteratorState
@@ -203,10 +218,18 @@ def bind_tasks(task_specs, model):
     out = []
     for spec in task_specs:
         s = dict(spec)
-        if s["kind"] == "we_pages":
+        if s["kind"].startswith("we_"):
             w = model.resolve(O.dec(s["ref"]))
             if w is None:
-                continue
+                # fall back to the webentity holding most pages (deterministic)
+                cnt = Counter(x for x in model.page_to_we().values() if x is not None)
+                if not cnt:
+                    ws = model.weids()
+                    if not ws:
+                        continue
+                    w = ws[0]
+                else:
+                    w = sorted(cnt, key=lambda x: (-cnt[x], x))[0]
             s["weid"] = w
             s["prefixes_b"] = model.we_prefixes(w)
         out.append(s)
@@ -363,7 +386,19 @@ def run_C16(case):
                         raise Fail("C16.page_query_sound", "page query of webentity %r lists pages that qualified at no moment: %s; schedule %s" % (tk.spec["weid"], short(bad), short(sch.schedule, 300)))
                     if len(life) > 2 and sometime != always:
                         res.probes["page_query_overlapped_membership_change"] += 1
-                elif k == "network":
+                elif k == "we_pagelinks":
+                    fin = snaps[-1]
+                    res.evals["C16.pagelinks_sound"] += 1
+                    for a_, b_, w_ in tk.result:
+                        if w_ > fin["out"].get((a_, b_), 0):
+                            raise Fail("C16.pagelinks_sound", "page-link query reports %s -> %s with weight %d, final store holds %d; schedule %s" % (short(a_), short(b_), w_, fin["out"].get((a_, b_), 0), short(sch.schedule, 300)))
+                elif k == "we_crawled_pages":
+                    fin = snaps[-1]
+                    res.evals["C16.crawled_query_sound"] += 1
+                    bad = [d["lru"] for d in tk.result if not fin["pages"].get(d["lru"])]
+                    if bad:
+                        raise Fail("C16.crawled_query_sound", "crawled-pages query lists pages that are not crawled pages at the end: %s" % short(bad))
+                elif k in ("network", "network_slow"):
                     out, auto = tk.spec["out"], tk.spec["auto"]
                     key = "out" if out else "in"
                     g = {}
@@ -405,8 +440,8 @@ def run_C16(case):
                     for pair, w in g.items():
                         if w > upper.get(pair, 0):
                             raise Fail("C16.network_upper", "network query (out=%s, auto=%s) reports %d for %r, at most %d could qualify at some moment; schedule %s" % (out, auto, w, pair, upper.get(pair, 0), short(sch.schedule, 300)))
-                    # page tallies
-                    for a, c in tk.result.items():
+                    # page tallies (fast variant only)
+                    for a, c in (tk.result.items() if k == "network" else ()):
                         tot = sum(v for b, v in c.items() if isinstance(b, str))
                         cand = {l for sn in life for l in sn["pages"] if any(s2["pref"].get(resolve_in(s2["pref"], l)) == a for s2 in life)}
                         res.evals["C16.network_tallies"] += 1
@@ -449,16 +484,22 @@ def gen_C16(rng, tier, seed):
         return "t%d" % nid[0]
 
     ntasks = rng.choice([2, 2, 3, 3])
+    big = tier == "thorough" and rng.random() < 0.4
     kinds = []
     kinds.append("batch")
     while len(kinds) < ntasks:
-        kinds.append(wchoice(rng, {"batch": 3, "rule": 1.5, "we_pages": 2, "network": 2, "add_page": 0.7, "add_links": 0.7}))
+        kinds.append(wchoice(rng, {"batch": 3, "rule": 1.5, "we_pages": 2, "network": 2, "add_page": 0.7, "add_links": 0.7, "network_slow": 0.8, "we_pagelinks": 0.8, "we_children": 0.4, "we_crawled_pages": 0.4, "we_most_linked": 0.4, "we_outlinks": 0.3, "we_inlinks": 0.3}))
     rng.shuffle(kinds)
     for k in kinds:
         if k == "batch":
             saved = g.weights
             g.weights = {"batch": 1}
             o = g.op()
+            if big:
+                for _ in range(rng.randint(1, 3)):
+                    o2 = g.op()
+                    have = {x[0] for x in o["data"]}
+                    o["data"].extend(x for x in o2["data"] if x[0] not in have)
             g.weights = saved
             tasks.append({"id": tid(), "kind": "batch", "data": o["data"], "yf": 1})
         elif k == "rule":
@@ -466,16 +507,19 @@ def gen_C16(rng, tier, seed):
             if a is None:
                 continue
             tasks.append({"id": tid(), "kind": "rule", "anchor": O.enc(a), "rule": rng.choice(["path1", "path2", "subdomain", "domain"])})
-        elif k == "we_pages":
+        elif k.startswith("we_"):
             ref = rng.choice(g.created_prefixes) if g.created_prefixes and rng.random() < 0.5 else None
             if ref is None:
                 base = rng.choice(g.pool)
                 sp = stem_prefixes(base)
                 hosts = [p for p in sp if p.count(b"h:") >= 1]
                 ref = rng.choice(hosts or sp)
-            tasks.append({"id": tid(), "kind": "we_pages", "ref": O.enc(ref)})
-        elif k == "network":
-            tasks.append({"id": tid(), "kind": "network", "out": rng.random() < 0.5, "auto": rng.random() < 0.5})
+            spec = {"id": tid(), "kind": k, "ref": O.enc(ref)}
+            if k == "we_pagelinks":
+                spec["combo"] = rng.choice([[True, True, True], [False, True, False], [False, False, True], [True, False, False], [False, True, True]])
+            tasks.append(spec)
+        elif k in ("network", "network_slow"):
+            tasks.append({"id": tid(), "kind": k, "out": rng.random() < 0.5, "auto": rng.random() < 0.5})
         elif k == "add_page":
             tasks.append({"id": tid(), "kind": "add_page", "lru": O.enc(g.lru()), "crawled": rng.random() < 0.5})
         elif k == "add_links":
